@@ -114,6 +114,10 @@ def draw_sched(rng, variant, small=False):
         # (omp_set_num_threads / threadpoolctl / pyscf.lib.num_threads in a long-lived
         # interpreter): objects built under one team size are used under another
         s["team_phase"] = [rng.choice([1, 2, 3, 4, 5, 8, 16, 17, 32]) for _ in range(rng.randint(1, 3))]
+    if rng.chance(0.1):
+        # nested parallelism switched on by the environment (OMP_MAX_ACTIVE_LEVELS >= 2,
+        # OMP_NUM_THREADS=a,b): a region encountered inside a region gets a team of its own
+        s["nested"] = rng.choice([2, 2, 3, 4])
     if variant == "simtrace":
         s["preempt_mean"] = rng.choice([3, 10, 30, 100, 1000])
         # windows are keyed by region function: dense pre-emption of a few functions per run
@@ -299,6 +303,7 @@ def run_workload(wl, wp, sched, record=False, replay=None):
         window_fn=sched.get("window_fn", 0),
         team_limit=sched.get("team_limit", 0),
         detect=bool(sched.get("detect")),
+        nested=int(sched.get("nested") or 0),
         record=record,
         max_steps=MAX_STEPS,
         replay=replay,
@@ -487,7 +492,7 @@ def _run_case(spec):
         stats["sched_runs"] += 1
         # (only for runs that agree with the reference: a run that is a violation anyway may
         # return arrays with elements nobody wrote, i.e. heap garbage that differs run to run)
-        if spec.get("verify_replay") and tr is not None and not tr["overflow"] and len(tr["segs"]) <= 300000 and exc is None and not st["error"] and not compare(ref, out)[0]:
+        if spec.get("verify_replay") and tr is not None and not tr["overflow"] and len(tr["segs"]) <= 300000 and exc is None and not st["error"] and not st.get("nested_multi") and not compare(ref, out)[0]:
             # replay fidelity: following the recorded schedule trace (not the PRNG) must
             # reproduce the execution exactly
             out_r, st_r, exc_r, _ = run_workload(wl, wp, sched, record=False, replay=tr)
@@ -514,6 +519,9 @@ def _run_case(spec):
             stats["runs_with_team_below_max_threads"] += 1
         if sched.get("team_phase"):
             stats["runs_with_thread_count_changed_between_calls"] += 1
+        if sched.get("nested"):
+            stats["runs_with_nested_parallelism_enabled"] += 1
+        stats["nested_regions_run_with_a_team"] += st.get("nested_multi", 0)
         dg.add("sched", "%x" % st["trace_hash"])
         multi += st["regions_multi"]
         if sched.get("detect") and not spec.get("replay_trace"):
@@ -539,8 +547,8 @@ def _run_case(spec):
             # C-level state that survives calls would make this run depend on what the worker
             # executed before; the replay falls back to re-running these first
             rp["earlier_cases_in_worker"] = list(_worker_log)
-        if tr is not None and not tr["overflow"] and len(tr["segs"]) <= 300000:
-            rp["trace"] = tr
+        if tr is not None and not tr["overflow"] and len(tr["segs"]) <= 300000 and not st.get("nested_multi"):
+            rp["trace"] = tr  # (runs with nested teams replay from the seed, not from a trace)
         if st["error"]:
             cls = {"deadlock": "deadlock", "heap_overrun": "heap-overrun"}.get(st["error"])
             if cls is None:
@@ -635,6 +643,7 @@ def minimise(v):
     for field, cands in (
         ("team_limit", [0]),
         ("team_phase", [0]),
+        ("nested", [0]),
         ("nthreads", [2, 3, 4]),
         ("chunk_shuffle", [0]),
         ("preempt_mean", [0, 10000, 1000, 100]),
@@ -761,6 +770,8 @@ def coverage(done, tier):
             "runs_with_chunk_shuffle": int(tot["runs_with_chunk_shuffle"]),
             "runs_with_team_below_max_threads": int(tot["runs_with_team_below_max_threads"]),
             "runs_with_thread_count_changed_between_calls": int(tot["runs_with_thread_count_changed_between_calls"]),
+            "runs_with_nested_parallelism_enabled": int(tot["runs_with_nested_parallelism_enabled"]),
+            "nested_regions_run_with_a_team": int(tot["nested_regions_run_with_a_team"]),
             "team_size_sweep_runs_every_team_2_to_24": int(tot["team_size_sweep_runs"]),
             "race_detector_runs": int(tot["detector_runs"]),
             "race_detector_conflicting_region_functions": int(tot["detector_conflicting_functions"]),
